@@ -12,6 +12,19 @@ SWEEP = [("a(i,j,k) = b(i,j,k)", ["d0d1d2", "s0s1s2", "d0s1s2"]), ("a(i,j) = b(i
          ("a(i,j) = b(i,j,k) * c(k)", ["d0d1d2", "s0s1s2"])]
 
 
+SWEEP4 = [("a(i,j,k,l) = b(i,j,k,l)", ["s0s1s2s3", "d0s1s2s3"]), ("a(i,j,k,l) = b(i,k,j,l)", ["s0s1s2s3"])]
+
+
+def target_sweep4():
+    """Order 4: every dense/compressed pattern of the target in natural ordering (16) against compressed inputs."""
+    import itertools
+
+    for text, in_formats in SWEEP4:
+        for pat in itertools.product("ds", repeat=4):
+            for inf in in_formats:
+                yield text, {"a": "".join(m + str(i) for i, m in enumerate(pat)), "b": inf}
+
+
 def target_sweep():
     """EVERY format of the target (all modes x orderings) against a few natural input formats, for copy-like shapes:
     output-side mechanisms (append cursors, growth, scratch space, final sizes) depend on the target format only."""
@@ -32,7 +45,7 @@ def select(rng: random.Random, kinds: list[str], per_assignment: int, tries: int
     """Yield (Kernel, group) for catalogue assignments x seeded format assignments for which generation succeeds.
     `want(kernel)` may reject a kernel (e.g. C16 needs a sparse-only index)."""
     out = []
-    for text, fm in target_sweep():
+    for text, fm in list(target_sweep()) + list(target_sweep4()):
         probe = kernels.compile_kernel(text, fm, kinds, [], cap=cap, optimize=optimize)
         if probe.error or (want is not None and not want(probe)):
             continue
